@@ -4,7 +4,7 @@
    outside [0,lines) x [0,columns). SCm: a remembered DECCOLM width is >= 1. *)
 From Coq Require Import NArith List Bool.
 From MT Require Import Lib Types Tables Screen Spec Stmt Obs.
-From MT.Proofs Require Import WF Aeq RefineReset RefineMisc SpecAll RefineModes RefineAll RunAll.
+From MT.Proofs Require Import WF Aeq RefineReset RefineMisc SpecAll RefineModes RefineAll RunAll P09.
 From MT Require TablesOk_C08.
 Import ListNotations.
 Open Scope N_scope.
@@ -40,6 +40,17 @@ Proof.
   repeat split; try (apply N.leb_le; assumption); try (apply N.ltb_lt; assumption).
 Qed.
 
+(* colours: in every state reachable from Screen::new by any operations (SGR with any parameter list, DECSCNM, erase,
+   scroll, draw, DECRC, resize ...) every visible cell and the current rendition have fg and bg in
+   {default, 8 names, 8 bright names} or a 6-digit lowercase hexadecimal string *)
+Theorem C09_colours_always_documented : forall wid is_comb nfc c l (os : list op), 1 <= c -> 1 <= l -> Forall args_ok os ->
+  let s := run wid is_comb nfc (init c l) os in
+  (forall r cc, r < lines s -> cc < columns s -> cell_colours_ok (cellv s r cc) = true) /\ cell_colours_ok (cu_attr (cur s)) = true.
+Proof. exact c09_colours. Qed.
+Theorem C09_SGR_only_produces_documented_colours : forall dc a ps, cell_colours_ok dc = true -> cell_colours_ok a = true ->
+  cell_colours_ok (sgr_spec dc a ps) = true.
+Proof. intros dc a ps Hd Ha. apply (P_sgr_spec dc Hd (length ps) ps a (le_n _) Ha). Qed.
+
 Example C09_nonvacuous : WF (init 80 24) /\ SCm (init 80 24).
 Proof. split; [apply WF_init; discriminate|exact I]. Qed.
 
@@ -47,3 +58,5 @@ Print Assumptions C09_new_screen_is_well_formed.
 Print Assumptions C09_every_operation_preserves.
 Print Assumptions C09_every_reachable_state.
 Print Assumptions C09_display_length.
+Print Assumptions C09_colours_always_documented.
+Print Assumptions C09_SGR_only_produces_documented_colours.
